@@ -817,7 +817,7 @@ def run_cases(run, cases):
 
 
 def n_cases(tier):
-    return {"s2": 40, "tetra": 60, "nematic": 80, "gyr": 120} if tier == "quick" else \
+    return {"s2": 80, "tetra": 120, "nematic": 160, "gyr": 240} if tier == "quick" else \
         {"s2": 1500, "tetra": 4000, "nematic": 5000, "gyr": 8000}
 
 
